@@ -546,9 +546,10 @@ func (lr *limitReader) Read(p []byte) (int, error) {
 	if lr.n < 0 {
 		lr.n = 0
 	}
-	if lr.n == 0 && err == io.EOF {
+	if lr.n == 0 && (err == io.EOF || errors.Is(err, io.ErrUnexpectedEOF)) {
 		// The reader reported the end of the message together with the last byte
 		// of the budget, which is one more byte than the limit allows.
+		// A deflate stream that just stops reports io.ErrUnexpectedEOF here.
 		err = fmt.Errorf("read limited at %v bytes", lr.limit.Load())
 		lr.c.writeError(StatusMessageTooBig, err)
 	}
